@@ -12,20 +12,83 @@ _C07STUBS = [
     'Db object: raw storage, constructor not run; fields _ncol,_nech,_array,_uidcol,_p built directly (std::vector / VectorInt / PtrGeos are the real classes)',
 ]
 _C07ASSUME = ['pre-state: arbitrary tables satisfying the representation invariant I (identifier table one-to-one onto the columns, '
-              'role lists hold live pairwise distinct identifiers, role types 3..28 empty)']
+              'role lists hold live pairwise distinct identifiers, role types 3..28 empty); every shape (list lengths, argument class) '
+              'is a value of one symbolic configuration input, identifiers / table contents are symbolic within a shape']
+_Q = {'VF_NCOL': 2, 'VF_NUID': 4, 'VF_NECH': 2}
+_T = {'VF_NCOL': 3, 'VF_NUID': 5, 'VF_NECH': 2}
+_QB = '2 live columns, 4 identifiers (2 deleted), 2 samples, role types 0..2 with every combination of list lengths (sum <= 2)'
+_TB = '3 live columns, 5 identifiers (2 deleted), 2 samples, role types 0..2 with every combination of list lengths (sum <= 3)'
+_COMMON = dict(property='C07', engine='symex', tus=_C07TUS, validate_doubles='int',
+               timeout_ms={'quick': 120000, 'thorough': 900000},
+               symex={'max_steps': 30000000},
+               cxxflags=['-fno-sanitize=vptr'],  # sanitizer replay builds: the Db lives in raw storage (no vptr)
+               assumptions=_C07ASSUME, stubs=_C07STUBS)
+_NOREALLOC = 'std::vector reallocation (list storage is reserved up front)'
 
+
+def _loc(kid, mode, tmin, tmax, tiers, dom, what, out, validate=None):
+    K(kid, harness='C07/locator.cpp', entry='k_set_locator', tiers=tiers,
+      defines={'all': {'VF_MODE': mode, 'VF_TMIN': tmin, 'VF_TMAX': tmax}, 'quick': _Q, 'thorough': _T},
+      bounds={'quick': _QB + '; ' + dom, 'thorough': _TB + '; ' + dom},
+      validate=validate or {'quick': 40, 'thorough': 80}, what=what, out=out + '; ' + _NOREALLOC, **_COMMON)
+
+
+_A_WHAT = ('Db::setLocatorByUID with PtrGeos::findUIDInLocator/erase/resize/setLocatorByIndex, Db::clearLocators, isUIDValid/checkArg: '
+           'I preserved, no column with two roles, designated column gets the designated role, every other designation unchanged')
+_A_DOM = ('target type %s; rank argument -1 or 0..count; cleanSameLocator both; identifier negative / too large / live without role / at every list position; '
+          'the argument classes (automatic rank, identifier already of the target type) and (UNKNOWN with cleanSameLocator) are decided by C07.a.reassign / C07.a.uclean')
+_A_OUT = 'negative rank arguments other than -1 (the code only tests < 0); explicit ranks beyond the count (C07.g); stale identifiers (C07.a.stale); names'
+_loc('C07.a', 0, -1, 2, ('quick',), _A_DOM % 'UNKNOWN/0/1/2', _A_WHAT, _A_OUT)
 for _t, _tn in ((-1, 'u'), (0, '0'), (1, '1'), (2, '2')):
-    K('C07.a.' + _tn, property='C07', engine='symex', harness='C07/locator.cpp', entry='k_set_locator', tus=_C07TUS,
-      defines={'all': {'VF_MODE': 0, 'VF_TMIN': _t, 'VF_TMAX': _t},
-               'quick': {'VF_NCOL': 3, 'VF_NUID': 5, 'VF_NECH': 2}, 'thorough': {'VF_NCOL': 4, 'VF_NUID': 6, 'VF_NECH': 2}},
-      bounds={'quick': '3 live columns, 5 identifiers, 2 samples, role types 0..2 with every combination of list lengths (sum <= 3); '
-                       'target type %s; rank argument -1 or 0..count; cleanSameLocator both; identifier negative / too large / live without role / at every list position'
-                       % ('UNKNOWN' if _t < 0 else str(_t)),
-              'thorough': 'same with 4 live columns, 6 identifiers'},
-      timeout_ms={'quick': 120000, 'thorough': 900000}, validate={'quick': 40, 'thorough': 80}, validate_doubles='int',
-      symex={'max_steps': 20000000},
-      what='Db::setLocatorByUID with PtrGeos::findUIDInLocator/erase/resize/setLocatorByIndex, Db::clearLocators, isUIDValid/checkArg: '
-           'I preserved, no column with two roles, designated column gets the designated role, every other designation unchanged',
-      out='negative rank arguments other than -1 (the code only tests < 0); explicit ranks beyond the count (C07.g); stale identifiers (C07.a.stale); '
-          'names; std::vector reallocation (list storage is reserved up front)',
-      assumptions=_C07ASSUME, stubs=_C07STUBS)
+    _loc('C07.a.' + _tn, 0, _t, _t, ('thorough',), _A_DOM % ('UNKNOWN' if _t < 0 else str(_t)), _A_WHAT, _A_OUT)
+_loc('C07.a.reassign', 3, 0, 2, ('quick', 'thorough'),
+     'target type 0/1/2, automatic rank (-1), cleanSameLocator false, the identifier already holds a role of the target type (every position)',
+     'Db::setLocatorByUID(iuid, t, -1) for a column that already has a role of type t: same assertions as C07.a', 'names')
+_loc('C07.a.uclean', 4, -1, -1, ('quick', 'thorough'),
+     'target ELoc::UNKNOWN with cleanSameLocator true and a valid identifier (live without role / at every list position)',
+     'Db::setLocatorByUID(iuid, ELoc::UNKNOWN, k, true) -> Db::clearLocators(UNKNOWN): memory safety and the assertions of C07.a',
+     'translator validation by random execution is switched off for this kernel (the native behaviour of the out-of-bounds access is undefined); '
+     'counterexamples are still replayed natively under the address sanitizer', validate={'quick': 0, 'thorough': 0})
+_loc('C07.a.stale', 2, 0, 2, ('quick', 'thorough'),
+     'target type 0/1/2; rank argument -1 or 0..count; cleanSameLocator both; the identifier argument is in range but designates a deleted column',
+     'Db::setLocatorByUID called with the identifier of a deleted column (accepted by isUIDValid): role lists keep designating live columns only', 'names')
+_loc('C07.g', 1, 0, 2, ('quick', 'thorough'),
+     'target type 0/1/2; explicit rank argument count+1 or count+2 (count = roles of the target type once the identifier / the cleaned list is taken out); '
+     'cleanSameLocator both; identifier live without role / at every list position',
+     'Db::setLocatorByUID with an explicit rank beyond the current count (PtrGeos::resize padding): roles of one type stay numbered consecutively '
+     '(every rank up to the count designates a live column), no column has two roles', 'ranks further than count+2')
+
+K('C07.d', harness='C07/setmany.cpp', entry='k_set_many', tiers=('quick', 'thorough'),
+  defines={'all': {'VF_N': 2}, 'quick': _Q, 'thorough': _T},
+  bounds={'quick': '2 live columns, 4 identifiers, 2 designated columns / identifiers per call (arbitrary, also invalid or repeated); target type UNKNOWN or 1; '
+                   'target list of every length 0..2; rank argument -2..4; cleanSameLocator both (not with UNKNOWN)',
+          'thorough': '3 live columns, 5 identifiers, target list length 0..3, rank argument -2..5'},
+  validate={'quick': 60, 'thorough': 100},
+  what='Db::setLocatorByColIdx, Db::setLocatorsByUID (both overloads), Db::setLocatorsByColIdx with getUIDByColIdx, clearLocators, _getNextLocator: '
+       'the (identifier, type, rank) triples handed to setLocatorByUID designate the columns the caller named, rank k+i',
+  out='the effect of the single assignments (C07.a) and their composition when a designated column already holds a role of the target type '
+      '(same mechanism as C07.a.reassign / C07.g); ELoc::UNKNOWN with cleanSameLocator (C07.a.uclean)',
+  **{**_COMMON, 'stubs': _C07STUBS + ['Db::setLocatorByUID -> recorder of its arguments (its own behaviour is decided by the C07.a kernels)']})
+
+K('C07.b', harness='C07/delcol.cpp', entry='k_delete_column', tiers=('quick', 'thorough'),
+  defines={'quick': {'VF_NCOL': 3, 'VF_NUID': 4, 'VF_NECH': 2}, 'thorough': {'VF_NCOL': 4, 'VF_NUID': 5, 'VF_NECH': 2}},
+  bounds={'quick': 'enumerated through one symbolic configuration input: every one-to-one identifier table of 3 columns in 4 identifiers (24), identifier argument '
+                   '-1 / 0..3 (live or deleted) / 4, four role-list shapes (none; all columns in one type; [last,first]+[rest]; [first]+[last] with a free column); '
+                   '2 samples with symbolic values',
+          'thorough': 'same with 4 columns in 5 identifiers (120 tables)'},
+  validate={'quick': 60, 'thorough': 100},
+  what='Db::deleteColumnByUID with getColIdxByUID, isUIDValid/isColIdxValid, PtrGeos::findUIDInLocator/erase, std::vector<double>::resize: '
+       'I preserved; identifier table shift; value compaction; name removal; role removal; all other designations unchanged',
+  out='name strings (integer model of the name table); role-list shapes other than the four listed (the list handling is the one of C07.a); ' + _NOREALLOC,
+  **_COMMON)
+
+K('C07.e', harness='C07/getters.cpp', entry='k_getters', tiers=('quick', 'thorough'),
+  defines={'quick': {'VF_NCOL': 2, 'VF_NUID': 4, 'VF_NECH': 1}, 'thorough': {'VF_NCOL': 3, 'VF_NUID': 5, 'VF_NECH': 1}},
+  bounds={'quick': '2 live columns, 4 identifiers (2 deleted), role types 0..2 with every combination of list lengths (sum <= 2), arbitrary identifiers / positions; '
+                   'identifier argument -2..5, column argument -2..3, every rank 0..count of the types 0..3',
+          'thorough': '3 live columns, 5 identifiers, list lengths with sum <= 3'},
+  validate={'quick': 60, 'thorough': 100},
+  what='Db::getColIdxByUID, getUIDByColIdx, getColIdxByLocator, getLocatorByColIdx, getLocatorByUID (with isUIDValid, isColIdxValid, checkArg): '
+       'each equals the table content; mutually inverse on every state satisfying I',
+  out='negative rank arguments of getColIdxByLocator (documented as starting from 0; the code indexes the list without a lower bound check); names',
+  **{**_COMMON, 'stubs': _C07STUBS + ['ELoc::fromValue(v) -> harness-owned ELoc object with _value = v (the library looks it up in the static std::map)']})
